@@ -346,6 +346,12 @@ def sweepExt : Ext
 def sweepEnv (es : List (NId × Bool)) (hs : List NId) : Env :=
   [("c.inflight", encInflight es), ("c.handling", encHandling hs)]
 
+/-- `closeChans`: the channel table and the sink callbacks. -/
+def chansExt : Ext
+  | "delete", [.tag "&" (.cons (.str x) _), k], env => .ok .nil (env.set x (((env.get x).getD .nil).mapDel k))
+  | "hnd.cb", [d, ok], env => .ok .nil (logFx env (.cons (.str "cb") (.cons ((env.get "hnd").getD .nil) (.cons d (.cons ok .nil)))))
+  | fn, _, _ => .stuck fn
+
 /-! ### client options -/
 
 /-- The client options that touch reconnection and keepalive. -/
